@@ -230,7 +230,7 @@ def limits_rule(chk, rule: str, fn, what: str, tail_attr: str):
                 rec = (n, left, right, state)
                 if tail_attr in left:
                     partial.append(rec)
-                elif "len(" in left or left in ("pos",) or left.startswith("header_length"):
+                elif "len(" in left or left in ("pos", "line_len") or left.startswith("header_length"):  # line_len: pos minus the CR of a lax line ending
                     complete.append(rec)
     if not partial:
         chk.violation(rule, fn, f"len(self.{tail_attr}) > <limit> -> LineTooLong", "limit check on the buffered partial line",
